@@ -204,8 +204,9 @@ func parallelFor(n int, f func(i int)) {
 // generatedDocs: documents enumerated by the other generator modules of the specification
 // (Table.tla candidates, CMGen.tla / InlineGen.tla documents in both indentation spellings),
 // as a workload for checks whose oracle needs no expectation (tree shape, totality, ...).
-func generatedDocs(c *Ctx, nSim int) []string {
-	var out []string
+// tableDocs: the table candidates of Table.tla with the interesting cell spellings (escaped pipes,
+// pipes in code spans, empty cells, inline content), by cell kind.
+func tableDocs(c *Ctx) (docs []string, kinds []string) {
 	r := RunTLC(TLCOpts{Module: "Table", Cfg: "Table_gen.cfg", Workers: 8, Timeout: 40 * time.Minute, OnJSON: func(raw []byte) {
 		var t tableCand
 		if json.Unmarshal(raw, &t) != nil {
@@ -215,12 +216,18 @@ func generatedDocs(c *Ctx, nSim int) []string {
 		if t.CellKind == "plain" || t.CellKind == "spaces" || t.Pretext {
 			return
 		}
-		out = append(out, concretiseTable(t))
+		docs = append(docs, concretiseTable(t))
+		kinds = append(kinds, t.CellKind)
 	}})
 	r.MustOK("Table generator (workload)")
 	c.Ev.TLC("Table_gen.cfg (workload)", r)
+	return docs, kinds
+}
+
+func generatedDocs(c *Ctx, nSim int) []string {
+	out, _ := tableDocs(c)
 	seen := map[string]bool{}
-	r = RunTLC(TLCOpts{Module: "CMGen", Cfg: "gen.cfg", CfgText: cmCfg(5, 3, true, true), Workers: 4, Timeout: 30 * time.Minute,
+	r := RunTLC(TLCOpts{Module: "CMGen", Cfg: "gen.cfg", CfgText: cmCfg(5, 3, true, true), Workers: 4, Timeout: 30 * time.Minute,
 		Simulate: fmt.Sprintf("num=%d", nSim/4), Depth: 40, Seed: c.Seed*17 + 5, OnJSON: func(raw []byte) {
 			var d cmDoc
 			if json.Unmarshal(raw, &d) != nil || seen[string(raw)] {
@@ -252,5 +259,34 @@ func generatedDocs(c *Ctx, nSim int) []string {
 		infra("InlineGen workload: TLC failed\n%s", r.Tail)
 	}
 	c.Ev.TLC("InlineGen simulation (workload)", r)
+	// nested inline containers (NestGen.tla) and random block-structure documents (BlockSem.tla)
+	r = RunTLC(TLCOpts{Module: "NestGen", Cfg: "gen.cfg", CfgText: nestCfg(5), Workers: 4, Timeout: 20 * time.Minute, OnJSON: func(raw []byte) {
+		var d struct {
+			Src string `json:"src"`
+		}
+		if json.Unmarshal(raw, &d) != nil {
+			return
+		}
+		out = append(out, d.Src+"\n", "- x "+d.Src+"\n")
+	}})
+	r.MustOK("NestGen (workload)")
+	c.Ev.TLC("NestGen (workload)", r)
+	for k, a := range []string{"wide", "html"} {
+		r = RunTLC(TLCOpts{Module: "BlockSem", Cfg: "gen.cfg", CfgText: bsCfg(a, 7, true, false), Workers: 4, Timeout: 20 * time.Minute,
+			Simulate: fmt.Sprintf("num=%d", nSim/16), Depth: 8, Seed: c.Seed*17 + 7 + int64(k), OnJSON: func(raw []byte) {
+				var d struct {
+					Src string `json:"src"`
+				}
+				if json.Unmarshal(raw, &d) != nil || seen[d.Src] {
+					return
+				}
+				seen[d.Src] = true
+				out = append(out, d.Src)
+			}})
+		if r.TimedOut || (r.Exit != 0 && r.ErrorText != "") {
+			infra("BlockSem workload: TLC failed\n%s", r.Tail)
+		}
+		c.Ev.TLC("BlockSem "+a+" simulation (workload)", r)
+	}
 	return out
 }
